@@ -185,7 +185,7 @@ def apply_token(tok, x, st):
 
 def gen_token(name, x, st, rng, last):
     """arguments for operation `name` on an operand of x's shape, inside the accepted (defect-free) argument domain
-    of C03-C08: non-negative axes, in-range indices, positive steps.  None = not applicable to this operand."""
+    of C03-C08: non-negative axes except cumsum, in-range take indices, any Python slice (negative bounds and steps).  None = not applicable to this operand."""
     s = list(x.shape)
     d = len(s)
     if d == 0:
@@ -233,11 +233,23 @@ def gen_token(name, x, st, rng, last):
         ax = rng.randrange(d)
         return 'take:%s:%d' % (fmt([rng.randrange(s[ax]) for _ in range(rng.randint(1, 3))]), ax)
     if name == 'slice':
+        # Python-exact slicing (slice.indices): negative starts / stops, negative steps, out-of-range bounds are clamped;
+        # empty results are rejected by the caller (x.size == 0) and resampled
         parts = []
         for e in s:
-            a = rng.randrange(e)
-            b = rng.randint(a + 1, e)
-            parts.append('%d,%d,%d' % (a, b, rng.randint(1, 2)))
+            if rng.random() < 0.5:
+                a = rng.randrange(e)
+                b = rng.randint(a + 1, e)
+                parts.append('%d,%d,%d' % (a, b, rng.randint(1, 2)))
+            else:
+                for _ in range(20):
+                    st = rng.choice([1, 2, -1, -2])
+                    a, b = rng.randint(-e - 1, e + 1), rng.randint(-e - 2, e + 1)
+                    if len(range(*slice(a, b, st).indices(e))) > 0:
+                        break
+                else:
+                    a, b, st = 0, e, 1
+                parts.append('%d,%d,%d' % (a, b, st))
         return 'slice:' + '/'.join(parts)
     if name == 'broadcast_to':
         t = [rng.randint(2, 3) if e == 1 else e for e in s]
@@ -268,7 +280,8 @@ def gen_token(name, x, st, rng, last):
     if name == 'amax':
         return 'amax:%d' % rng.randrange(d)
     if name == 'cumsum':
-        return 'cumsum:%d' % rng.randrange(d)
+        # any axis NumPy accepts, negative ones included (accumulate normalises the axis since the C08 fix)
+        return 'cumsum:%d' % rng.randrange(-d, d)
     if name == 'matmul':
         if d < 2:
             return None
@@ -719,7 +732,7 @@ MANIFEST = dict(
          'C12/C13; one genuine defect found here was repaired in /repo (ADL picked the eager array::apply_slice inside view::matmul / flip / slice / split / reduce / accumulate when array/slice.hpp was included; the calls are now qualified) and is re-run as a sanitizer regression TU.',
     technique='Lean 4 proofs about the evaluator model over an arbitrary view denotation + differential correspondence on generated compositions + NumPy oracle')
 ASSUMPTIONS = ['each operation\'s own denotation (shape and element function) is what C03-C08/C16/C17 establish; C10 quantifies over the denotation',
-               'arguments stay in the accepted, defect-free domain of C03-C08 (non-negative axes, in-range indices, positive slice steps, no rank-0 reshape)',
+               'arguments stay in the accepted, defect-free domain of C03-C08 (non-negative axes except for cumsum, in-range take indices, no rank-0 reshape; slices are arbitrary Python slices incl. negative bounds and steps, non-empty results)',
                'integer provenance data stays below 2^31 (generator rejects larger intermediate values); float32 results are compared with NumPy under a 2e-6 relative tolerance and bit-exactly between evaluation strategies',
                'compile-time-constant index kinds beyond the six ct operations here, clipped shapes and NMTOOLS_DISABLE_STL builds are C09/C11']
 PARTIAL = []
